@@ -41,7 +41,7 @@ CHECKS = {   # seeded id -> [(property check, --only obligations or None)]
     'C04-c': [('C04', None)],
     'C07-c': [('C01', 'msp_request_odd_member_sint1,msp_request_odd_member_sint3'), ('C07', None)],
     'C11-c': [('C11', 'negated_exit,curated_2,ops1_00')],
-    'C15-c': [('C15', None)],
+    'C15-c': [('C15', 'personality_established_by_construction,route_simple_vs_one_write')],
     'C16-c': [('C16', None)],
     'C20-c': [('C20', 'roundtrip_float_selected,roundtrip_int,roundtrip_list2')],
 }
